@@ -265,7 +265,7 @@ impl<M: Msg> Spec<M> {
 			let orig = buf[off];
 			let may_absorb = |o: usize| self.absorb_ok.map(|f| f(v, e, o)).unwrap_or(false);
 			let allowed = may_absorb(off) || (off + 1 < len && may_absorb(off + 1));
-			let mut one = |cx: &mut Ctx, buf: &[u8]| {
+			let one = |cx: &mut Ctx, buf: &[u8]| {
 				let exp = if allowed { Expect::Any } else { Expect::NotEq("substitution-absorbed", v) };
 				if let Some(x) = examine::<M>(cx, Class::Subst, buf, len, exp) {
 					if &x != v {
